@@ -33,6 +33,8 @@ declarations:
   - decl: Chain *grow(int n)
     return_this: true
   - decl: int length()
+  - decl: int tally +readonly
+  - decl: double factor
 """
 # names every language that is switched on must know (class methods included)
 PRESENT = ["fone", "Widget", "size", "getvec", "norm", "Chain", "grow", "length"]
@@ -233,26 +235,28 @@ def check_namespace_off(inp):
     """a namespace switched off for Fortran contributes nothing to any Fortran module, flattened or not"""
     global YAML
     saved = YAML
-    YAML = FLATNS % ("true" if inp["flatten"] else "false")
+    lang = inp.get("lang", "fortran")
+    YAML = (FLATNS % ("true" if inp["flatten"] else "false")).replace("    wrap_fortran: false", "    wrap_%s: false" % lang)
     try:
-        files, cf, ff = run({"python": False, "lua": False}, {})
+        files, cf, ff = run({"python": lang == "python", "lua": lang == "lua"}, {})
     except (RuntimeError, SystemExit):
         return None
     finally:
         YAML = saved
     import re
     seen_keep = False
+    key = {"fortran": "f", "python": "py", "lua": "lua"}[lang]
     for rel, data in sorted(files.items()):
-        if classify(os.path.basename(rel)) != "f":
+        if classify(os.path.basename(rel)) != key:
             continue
         text = data.decode("utf-8", "replace")
         seen_keep = seen_keep or "keep" in text
-        m = re.search(r"^.*hidden.*$", text, re.I | re.M)
+        m = re.search(r"^.*(hidden|inner).*$", text, re.I | re.M)
         if m:
-            return "wrap_fortran is off for namespace inner (F_flatten_namespace %s) but %s has: %r" % (
-                inp["flatten"], rel, m.group(0).strip()[:80])
+            return "wrap_%s is off for namespace inner (F_flatten_namespace %s) but %s has: %r" % (
+                lang, inp["flatten"], rel, m.group(0).strip()[:80])
     if not seen_keep:
-        return "the Fortran wrapper of 'keep' (wrappers on) is missing"
+        return "the %s wrapper of 'keep' (wrappers on) is missing" % lang
     return None
 
 
@@ -297,6 +301,14 @@ def check(inp):
             for nm in PRESENT:
                 if nm.lower() not in text:
                     return "wrap_%s is on but the %s output does not mention %r" % (lang, lang, nm)
+    # the accessor functions generated for data members are C / Fortran functions: Python uses descriptors, Lua has none
+    import re as _re
+    for lang, key in (("python", "py"), ("lua", "lua")):
+        if flags.get(lang, True):
+            text = b" ".join(files[r] for r in files if classify(os.path.basename(r)) == key).decode("utf-8", "replace")
+            m = _re.search(r"\b\w*(get_?tally|set_?tally|get_?factor|set_?factor)\w*", text, _re.I)
+            if m:
+                return "the %s output contains the member accessor %r, which is generated for C and Fortran only" % (lang, m.group(0))
     # python / lua switches do not change a byte of the C and Fortran files
     if flags.get("python") or flags.get("lua"):
         f2 = dict(flags)
@@ -329,6 +341,8 @@ def candidates(seed, around=None):
     yield {"declaration_off": ["c", "fortran"]}
     yield {"namespace_off": True, "flatten": True}
     yield {"namespace_off": True, "flatten": False}
+    yield {"namespace_off": True, "flatten": False, "lang": "python"}
+    yield {"namespace_off": True, "flatten": False, "lang": "lua"}
     for t in ("struct", "class"):
         yield {"type_off": t, "langs": ["fortran"]}
         yield {"type_off": t, "langs": ["c", "fortran"]}
